@@ -233,19 +233,6 @@ Section Findings.
   Definition bad_d (s : sst) (o : op) : bool :=
     match o with Ev _ a _ => is_own c a && negb (c_early c) && negb (accepted s) | _ => false end.
 
-  (* C15-F3: await-all, and a directory is reported both failed and uploaded, or failed without an
-     UPLOAD: the UPLOADED branch compares set SIZES instead of sets *)
-  Definition bad_e (s : sst) (o : op) : bool :=
-    c_await c &&
-    match o with
-    | Ev KFailed a d => is_own c a && (negb (smem d (sA s)) || smem d (sS s))
-    | Ev KUploaded a d => is_own c a && smem d (sF s)
-    | _ => false
-    end.
-
-  (* C15-F4: the creating command is rejected *)
-  Definition bad_f (s : sst) (o : op) : bool := match o with Reject => true | _ => false end.
-
   Fixpoint any_bad (bad : sst -> op -> bool) (s : sst) (ops : list op) : bool :=
     match ops with
     | [] => false
@@ -255,8 +242,6 @@ End Findings.
 
 Definition foreign_uploaded_shared_dir (c : cfg) (ops : list op) : bool := any_bad c (bad_a c) s0 ops.
 Definition own_event_before_reply (c : cfg) (ops : list op) : bool := any_bad c (bad_d c) s0 ops.
-Definition await_all_dir_failed_and_uploaded (c : cfg) (ops : list op) : bool := any_bad c (bad_e c) s0 ops.
-Definition create_rejected (c : cfg) (ops : list op) : bool := any_bad c (bad_f) s0 ops.
 
 (* ---- equality of traces (progress values compared as fractions) ---- *)
 Definition result_eqb (a b : result) : bool :=
